@@ -108,6 +108,9 @@ var c01Exemplars = []struct {
 		"main.thrift": "include \"b.thrift\"\nnamespace go kf.raw3.a\nstruct S { 1: b.H h = {\"uuid\": []} }\n",
 		"b.thrift":    "include \"c.thrift\"\nnamespace go kf.raw3.b\nstruct H { 1: list<c.Info> uuid }\n",
 		"c.thrift":    "namespace go kf.raw3.c\nstruct Info { 1: i32 v }\n"}},
+	{"raw_struct-include-used-only-by-service", "go", []string{"template=raw_struct"}, map[string]string{
+		"main.thrift": "include \"c.thrift\"\nnamespace go kf.raws.a\nstruct S { 1: i32 x }\nservice Api { void f(1: c.Mode m) }\n",
+		"c.thrift":    "namespace go kf.raws.c\nenum Mode { A }\n"}},
 	{"throws-field-named-success", "go", nil, map[string]string{
 		"main.thrift": "namespace go kf.succ\nexception E { 1: string m }\nservice S { i32 f() throws (1: E success) }\n"}},
 	{"underscore-field-in-foreign-struct-literal", "go", nil, map[string]string{
@@ -124,6 +127,7 @@ func c01ProgFor(rng *vlib.Rng, backend string, opts []string, stress int) *idl.P
 	for _, x := range opts {
 		if x == "template=raw_struct" {
 			o.Defaults = false // a struct-literal default naming a type of a third package leaves an unused import
+			o.Services = false // so does an include that only a service refers to (raw_struct renders no service code)
 		}
 	}
 	return idl.Generate(rng.Fork("prog"), o)
